@@ -9,9 +9,9 @@ From Coq Require Import ZArith List Bool Arith.
 Import ListNotations.
 Open Scope nat_scope.
 
-(* D11 switch: today every segment is padded to a multiple of 8 bytes; a 16-byte element type (complex128) that follows
-   an odd number of 8-byte units is then mis-aligned.  The repair pads to 16 (the largest element size). *)
-Definition fixed_D11 : bool := false.
+(* D11 switch: before the repair every segment was padded to a multiple of 8 bytes; a 16-byte element type (complex128)
+   following an odd number of 8-byte units was then mis-aligned.  The repair (fix: D11) pads to 16, the largest element size. *)
+Definition fixed_D11 : bool := true.
 Definition align_unit : nat := if fixed_D11 then 16 else 8.
 
 Definition numel (shape : list nat) : nat := fold_right Nat.mul 1 shape.
@@ -94,6 +94,7 @@ Fixpoint alignedb (ls : list lspec) (L : list seg) : bool :=
    sizes before it.  from_struct_array takes struct_array[name] (a strided view, stride = itemsize) and hands it to
    torch.as_tensor, which requires the stride to be a multiple of the element size. *)
 Definition record_size (sizes : list nat) : nat := fold_right Nat.add 0 sizes.
-Definition fixed_D111 : bool := false.
+(* fix: D111 -- from_struct_array copies a field whose stride is not a multiple of its item size *)
+Definition fixed_D111 : bool := true.
 Definition struct_fields_ok (sizes : list nat) : bool :=
   if fixed_D111 then true else forallb (fun e => record_size sizes mod e =? 0) sizes.
